@@ -112,7 +112,8 @@ class Ctx:
         self.known_hits = []
         self.notes = []
         self.keep_scratch = bool(os.environ.get('VERIF_KEEP'))
-        self._known = load_known().get(pid, [])
+        # development aliases (C12MEM, C02VMEM, ...) run one component part of a property's check
+        self._known = load_known().get(pid, []) or load_known().get(pid[:3], [])
 
     # ------------------------------------------------------------ utilities
     def log(self, *a):
